@@ -145,6 +145,10 @@ var faults = []fault{
 		return dropLine("2 DATE 1 Jan 1870")(dropLine("1 DEAT")(dropLine("2 DATE 1 Jan 1800")(l)))
 	}},
 	{"only-child-is-own-parent", replaceLine("1 CHIL @I3@", "1 CHIL @I1@")},
+	{"second-name-no-surname", insertAfter("1 NAME Adam /Ash/", "1 NAME Addy")},
+	{"husb-no-name", dropLine("1 NAME Adam /Ash/")},
+	{"wife-no-name", dropLine("1 NAME Beth /Birch/")},
+	{"head-bad-date", insertAfter("0 HEAD", "1 DATE 2026-09-26", "1 SOUR x", "2 DATE sometime")},
 	// a second marriage of the husband whose partner reference does not resolve
 	{"second-family-dangling-wife", func(l []string) []string {
 		return insertAfter("2 DATE 1 Jun 1825", "0 @F2@ FAM", "1 HUSB @I1@", "1 WIFE @I9@")(insertAfter("1 FAMS @F1@", "1 FAMS @F2@")(l))
